@@ -42,7 +42,7 @@ CHECKS = {
  "C05": dict(
    technique="TLA+ spec NameRes.tla: every standard-conforming universe (2 modules, program, internal procedure; declarations, default/explicit accessibility, USE with ONLY lists and renames, re-export) is an initial state for which TLC computes the binding of every reference; rendered to three files and go-to-definition at first/middle/last character of every reference is compared with the spec's binding",
    text="15k universes (2.5k sampled in quick, all in thorough) x every reference token x 3 cursor positions: declaration file/line and a range covering exactly the name; names that are accessible nowhere must not be answered with any declaration (in particular not a PRIVATE one).",
-   note="Trusted: TLC, renderer with token coordinates. % chains / EXTENDS are decided on TypeRes.tla, diamond USE graphs on UseGraph.tla. Not modelled: INCLUDE in NameRes, generics, parent-component access. Three root-cause findings keyed on universe features are recorded as known findings.",
+   note="Trusted: TLC, renderer with token coordinates. % chains / EXTENDS are decided on TypeRes.tla, diamond USE graphs (ONLY lists on every edge, an ONLY rename in the program, a PRIVATE-by-default hub or arm that re-exports explicitly) on UseGraph.tla. Not modelled: INCLUDE in NameRes, generics, parent-component access. Three root-cause findings keyed on universe features are recorded as known findings.",
    design="4/C05"),
  "C06": dict(
    technique="NameRes.tla universes with reference statements drawn from templates (adjacent occurrences 'n=n+1', occurrences in strings/comments, apostrophes inside double-quoted literals and quotes inside comments; access lists spelled in upper case); the spec state gives the entity of every identifier token; references / documentHighlight / rename from every occurrence are compared with the token set of the entity; TypeRes.tla universes (EXTENDS chains of every depth, file spread and link order) with a same-spelled component of an unrelated type used on the same lines: references from every use of a component",
